@@ -797,12 +797,80 @@ func smallDeltaBase(c *core.Ctx, b *ob) {
 			}
 			bad = texpr(l, 0)
 		}
+		if bad == "" && spec.op == token.SUB {
+			bad = deltaBaseKeptAfterWrite(fn, base)
+		}
 		if bad != "" {
 			b.addP(props, core.Violation, spec.key, c.InstrPos(found), fmt.Sprintf("%s: the delta base can be %s. %s", spec.fn, bad, spec.why))
 		} else {
 			b.addP(props, core.Discharged, spec.key, c.InstrPos(found), "the delta base is 0 or "+spec.leaf+" on every path")
 		}
 	}
+}
+
+// deltaBaseKeptAfterWrite: once a field header has been written in an iteration (WriteField with a
+// non-constant field), the base must be reassigned before the next iteration: no φ on the way to
+// the loop header may carry the header's own value in from a block reached after that call.
+func deltaBaseKeptAfterWrite(fn *ssa.Function, base ssa.Value) string {
+	hphi, ok := base.(*ssa.Phi)
+	if !ok {
+		return ""
+	}
+	h := hphi.Block()
+	body := loopBlocks(h)
+	after := map[*ssa.BasicBlock]bool{}
+	var work []*ssa.BasicBlock
+	for blk := range body {
+		for _, in := range blk.Instrs {
+			ci, isCall := in.(ssa.CallInstruction)
+			if !isCall || ci.Common().Method == nil || ci.Common().Method.Name() != "WriteField" {
+				continue
+			}
+			for _, sc := range blk.Succs {
+				if body[sc] && sc != h {
+					work = append(work, sc)
+				}
+			}
+			after[blk] = true // edges leaving the call's block count as "after the write"
+		}
+	}
+	for len(work) > 0 {
+		blk := work[len(work)-1]
+		work = work[:len(work)-1]
+		if after[blk] {
+			continue
+		}
+		after[blk] = true
+		for _, sc := range blk.Succs {
+			if body[sc] && sc != h {
+				work = append(work, sc)
+			}
+		}
+	}
+	seen := map[*ssa.Phi]bool{}
+	var check func(phi *ssa.Phi) string
+	check = func(phi *ssa.Phi) string {
+		if seen[phi] {
+			return ""
+		}
+		seen[phi] = true
+		for i, e := range phi.Edges {
+			pred := phi.Block().Preds[i]
+			if !body[pred] || (phi == hphi && !h.Dominates(pred)) {
+				continue
+			}
+			if e == ssa.Value(hphi) && after[pred] {
+				return "left at the id of an earlier field after a header has been written (" + pred.String() + " reaches the next iteration without reassigning it)"
+			}
+			if q, isPhi := e.(*ssa.Phi); isPhi && q != hphi && body[q.Block()] {
+				if r := check(q); r != "" {
+					return r
+				}
+			}
+		}
+		return ""
+	}
+	return check(hphi)
 }
 
 // S14 — proto BitOr rule: a nil Rewriter means "remove the field" to the enclosing message
